@@ -21,7 +21,7 @@ func init() {
 			"(5) validateCommand returns nil only after a successful re-simulation with all pods scheduled and a matching cardinality (0/0, or 1 with the command's options a subset of the simulated ones); " +
 			"(6) multi-node search saves a replace decision only after filterOutSameInstanceType succeeded with options left; the reschedule cost adds max(0, EvictionCost) per pod.",
 		NotCovered: []string{"that the replacement is cheaper for a given price table (WorstLaunchPrice semantics and float arithmetic)", "soundness of the simulation itself (C01/C02)", "balanced-scoring thresholds"},
-		Rules: c06Rules,
+		Rules:      c06Rules,
 	})
 }
 
